@@ -10,7 +10,7 @@ REIDX  compaction remaps id maps with the gaps of their stores; gap convention a
 import re
 import mirq
 import panics
-from synq import Syn, walk, find, unparse, strip
+from synq import Syn, walk, find, unparse, strip, pat_names
 from formula import Evaluator, Unknown, Panic
 from props.c01 import own_rule, INDEX_FIELDS
 from props.c09 import total_rule, load_safe
@@ -171,6 +171,7 @@ def run(ctx):
 
     compact_rule(ctx, syn)
     trunc_rule(ctx, syn)
+    slotloop_rule(ctx, syn)
 
     # ---------------- REIDX
     r_re = ctx.rule("C03.REIDX", "reindex(): every id map is remapped with the gap table of its own store, under the same emptiness guard; gaps()/Handle::reindex agree on the gap convention; indices mentioning a remapped handle type are remapped")
@@ -395,3 +396,82 @@ def trunc_rule(ctx, syn):
                 ctx.report(r, "fits:%d" % width, "resolve_id(%r) answers %r for %s although the number fits: temporary ids no longer resolve" % (ident, got, name), f.file, f.line)
             if not fits and isok:
                 ctx.report(r, "truncates:%d" % width, "resolve_id(%r) resolves to handle %s for %s: the number does not fit the handle type and is truncated, so the id of no item resolves to another item" % (ident, got[1]["v"], name), f.file, f.line)
+
+
+# ---------------------------------------------------------------------- SLOTLOOP
+def _exits(node):
+    """break / return statements of a block that leave the enclosing loop (nested loops and closures are skipped for break)"""
+    out = []
+    stack = [(node, False)]
+    while stack:
+        n, inner = stack.pop()
+        if not isinstance(n, dict):
+            continue
+        k = n.get("k")
+        if k == "closure" or k == "itemstmt":
+            continue
+        if k == "return" or (k == "break" and not inner):
+            out.append(n)
+        from synq import children
+        for c in children(n):
+            stack.append((c, inner or k in ("for", "while", "loop")))
+    return out
+
+
+def slotloop_rule(ctx, syn):
+    """A store is a Vec<Option<T>> in which a removed item leaves a None behind.  A loop over the slots that stops at the
+    first None (break/return on the empty side) treats every live item behind a gap as absent."""
+    r = ctx.rule("C03.SLOTLOOP", "a loop over the slots of a store skips an empty slot and goes on: the None side of the slot test never leaves the loop")
+    fields = set()
+    for nm, st in syn.structs.items():
+        for f in st.get("fields", []):
+            t = re.sub(r"\s+", "", f["ty"]["s"]) if isinstance(f.get("ty"), dict) else ""
+            if re.match(r"^(Store<|Vec<Option<)", t):
+                fields.add(f["name"])
+    n_loops = 0
+    for fn in syn.fns:
+        if not fn.body:
+            continue
+        for lp in walk(fn.body):
+            if lp.get("k") != "for":
+                continue
+            it = unparse(lp["iter"], True)
+            if not (re.search(r"\.(%s)\.(iter|iter_mut)\(\)(\.enumerate\(\))?$" % "|".join(sorted(fields)), it) or re.search(r"\.store(_mut)?\(\)\.(iter|iter_mut)\(\)(\.enumerate\(\))?$", it)):
+                continue
+            names = set(pat_names(lp["pat"]))
+
+            def about_slot(e):
+                # the slot itself: the loop variable, possibly through & * .as_ref() .as_mut() .as_deref()
+                e = strip(e)
+                while e.get("k") == "mcall" and e["method"] in ("as_ref", "as_mut", "as_deref", "as_deref_mut") and not e["args"]:
+                    e = strip(e["recv"])
+                return e.get("k") == "path" and len(e["path"]) == 1 and e["path"][0] in names
+            tests = []  # (kind, none_side_node)
+            for n in walk(lp["body"], skip_closures=True):
+                k = n.get("k")
+                if k == "let" and n.get("else") and n.get("init") and n["pat"]["s"].replace(" ", "").startswith("Some(") and about_slot(n["init"]):
+                    tests.append(("let-else", n["else"]))
+                elif k == "if":
+                    c = strip(n["cond"])
+                    if c.get("k") == "letexpr" and c["pat"]["s"].replace(" ", "").startswith("Some(") and about_slot(c["e"]):
+                        tests.append(("if-let", n.get("else")))
+                    elif c.get("k") == "mcall" and c["method"] == "is_none" and about_slot(c["recv"]):
+                        tests.append(("is_none", n["then"]))
+                    elif c.get("k") == "mcall" and c["method"] == "is_some" and about_slot(c["recv"]):
+                        tests.append(("is_some", n.get("else")))
+                elif k == "match" and about_slot(n["e"]):
+                    for a in n["arms"]:
+                        if a["pat"]["s"].replace(" ", "") in ("None", "_"):
+                            tests.append(("match", a["body"]))
+            if not tests:
+                continue
+            n_loops += 1
+            key = "%s|%s" % (fn.qual, it)
+            r.hit(key, sample={"fn": fn.qual, "loop_over": it, "slot_tests": [t[0] for t in tests]})
+            for kind, side in tests:
+                if side is None:
+                    continue
+                ex = _exits(side)
+                if ex:
+                    ctx.report(r, key, "%s loops over the slots %s and leaves the loop (%s) when a slot is empty: after any removal the live items stored behind the gap are not visited" % (fn.qual, it, unparse(ex[0])[:40]), fn.file, ex[0].get("l", lp["l"]))
+    ctx.floor(r, n_loops, 10, "slot loops")
